@@ -257,6 +257,43 @@ fn session_level(rep: &mut Report, thorough: bool) {
         }
     }
     run_cases(rep, cases, "pair");
+    // triples over a small alphabet (thorough)
+    if thorough {
+        let small: Vec<(String, Vec<u8>)> = vec![
+            ("SYN1".into(), enc(SYN, 1, b"")),
+            ("SYN1'".into(), enc(SYN, 1, b"x")),
+            ("PSH1".into(), enc(PSH, 1, b"abc")),
+            ("PSH9".into(), enc(PSH, 9, b"abc")),
+            ("FIN1".into(), enc(FIN, 1, b"")),
+            ("FIN0".into(), enc(FIN, 0, b"")),
+            ("SYNACK1".into(), enc(SYNACK, 1, b"")),
+            ("SYNACK1err".into(), enc(SYNACK, 1, b"no")),
+            ("SETTINGS".into(), enc(SETTINGS, 0, b"v=2\npadding-md5=0")),
+            ("SETTINGSbad".into(), enc(SETTINGS, 0, &[0xff, b'=', 0xfe])),
+            ("SRVSET".into(), enc(SERVER_SETTINGS, 0, b"v=2")),
+            ("SRVSETbad".into(), enc(SERVER_SETTINGS, 0, b"v=999")),
+            ("UPD".into(), enc(UPDATE_PADDING, 0, &all_lines("3000000000-4000000000"))),
+            ("UPDbad".into(), enc(UPDATE_PADDING, 0, b"nostop")),
+            ("HREQ".into(), enc(HEART_REQ, 0, b"")),
+            ("HRESP".into(), enc(HEART_RESP, 0, b"")),
+            ("WASTE".into(), enc(WASTE, 0, &[0; 9])),
+            ("UNK".into(), enc(0x7f, 3, b"??")),
+        ];
+        let mut cases = vec![];
+        for role in [true, false] {
+            for (an, a) in &small {
+                for (bn, b) in &small {
+                    for (cn, c) in &small {
+                        let mut v = a.clone();
+                        v.extend_from_slice(b);
+                        v.extend_from_slice(c);
+                        cases.push((format!("{an},{bn},{cn}"), role, v, true));
+                    }
+                }
+            }
+        }
+        run_cases(rep, cases, "triple");
+    }
 }
 
 /// Record a well-formed conversation in both directions and apply every single mutation.
